@@ -95,6 +95,12 @@ def cases(tier, rng):
             for i, ps in enumerate(pss):
                 for tol in ((False, True) if (n <= 2 or i == 0) else (True,)):
                     yield {'k': 'tok', 's': s, 'ps': ps, 'tol': tol, 'ops': std_ops(n)}
+    # whitespace after comments and control words: who owns which newline (comment post-space, macro post-space, paragraph)
+    WSA = ['%c', '%', '\n', '\n', ' ', '\t', '\\ab', 'a', '\n\n', ' \n', '\n ', '{', '~']
+    for _ in range(2500 if tier == 'quick' else 40000):
+        n = rng.randint(2, 7)
+        s = ''.join(rng.choice(WSA) for _ in range(n))
+        yield {'k': 'tok', 's': s, 'ps': rng.choice(BASE_PS), 'tol': rng.random() < 0.5, 'ops': std_ops(n)}
     m = 6000 if tier == 'quick' else 120000
     allatoms = ATOMS + EXTRA
     for _ in range(m):
